@@ -1,8 +1,9 @@
 (* C02 — the OVERLOAD TABLE: every call form the harness drives, with its name, the C types of its operands, the rounding
    convention the header's convention block (gmp++_int.h, "Division/euclidean division/modulo") and the names give it, and the
    Gallina body of Model.v that models it.  Definitions only.  Where a return type cannot hold every result of that convention
-   (`%` returning int64_t / int32_t / int16_t / double for an unsigned or double divisor) the row keeps the PROPERTY's convention
-   and carries the representability condition in `pre`; what the code returns outside it is a recorded finding, not a convention.
+   (`%` returning int64_t for a uint64_t divisor) the row keeps the PROPERTY's convention and carries the representability
+   condition in `pre`; what the code returns outside it is a recorded finding, not a convention.  `double operator%(double)`
+   returns the remainder converted to double towards zero (exact whenever a double can hold it).
    `op%.Tuc` (template at unsigned char) is KAbsTr because the header DOES document it: "Cast towards unsigned consider only the
    absolute value" (gmp++_int.h, "Cast operators"), and the template body is that cast applied to `*this % Integer(n)`.
    The extracted driver dispatches through this table (coq/C02/ocaml/driver.ml looks the form name up in `forms`), the check
@@ -22,8 +23,8 @@ Definition in_ty (t : cty) (z : Z) : Prop :=
   | Ti16 => in_i16 z | Tu16 => in_u16 z | Ti8 => in_i8 z | Tu8 => in_u8 z
   | Td53 => in_d53 z                      (* integer-valued double, |l| <= 2^53 *)
   | Tf24 => in_f24 z                      (* integer-valued float, |l| <= 2^24 *)
-  | Tdbl => Z.abs z < W64                 (* integer-valued double, |l| < 2^64 *)
-  | Tdblx => Z.abs (Z.quot z 16) < W64    (* the double z / 16 (4 fractional bits), integer part below 2^64 *)
+  | Tdbl => True                          (* integer-valued double of any magnitude *)
+  | Tdblx => True                         (* the double z / 16 (4 fractional bits) *)
   end.
 
 (* what the form is documented to return *)
@@ -33,11 +34,12 @@ Inductive conv :=
   | KEq | KEr | KEqr           (* euclidean: 0 <= r < |d|  (quo / mod, modin, rem / divmod, quoRem) *)
   | KExact                     (* divexact: the q with n = d q *)
   | KAbsTr | KAbsCr            (* unsigned-word-returning trem / crem: |r| *)
-  | KTrFit64 | KTrFit32 | KTrFit16 (* `%` whose signed word return type is narrower than the divisor's type: the header documents
-                                  no exception to "r = a % b, |r| < |b|, a r >= 0", so the convention is KTr; the extra
-                                  precondition says when the code meets it: r representable in the return type.  Outside it
-                                  the code returns r wrapped (C02_percent_operators_narrow_return_wrap) - a FINDING. *)
-  | KTrDbl | KTrDblx           (* operator%(double): KTr under the precondition that r is an int64_t AND a double; outside: finding *)
+  | KTrFit64                   (* int64_t operator%(uint64_t): the header documents no exception to "r = a % b, |r| < |b|, a r >= 0",
+                                  so the convention is KTr; the extra precondition says when the code meets it: r representable in
+                                  int64_t.  Outside it the code returns r wrapped - a FINDING (known; no repair without changing
+                                  the return type).  The uint32_t / uint16_t overloads were repaired (e502f6c) and are plain KTr. *)
+  | KTrDbl | KTrDblx           (* double operator%(double) (body since 2c6554a): the remainder converted to double towards zero -
+                                  the remainder itself whenever it is a double; |res| < |l| and the sign of n for every l *)
   | KIsDiv.
 
 Definition spec (k : conv) (n d : Z) : list Z :=
@@ -47,8 +49,9 @@ Definition spec (k : conv) (n d : Z) : list Z :=
   | KEq => [equo n d] | KEr => [emod n d] | KEqr => [equo n d; emod n d]
   | KExact => [tquo n d]
   | KAbsTr => [Z.abs (trem n d)] | KAbsCr => [Z.abs (crem n d)]
-  | KTrFit64 | KTrFit32 | KTrFit16 | KTrDbl => [trem n d]
-  | KTrDblx => [trem n (Z.quot d 16)]
+  | KTrFit64 => [trem n d]
+  | KTrDbl => [trunc53 (trem n d)]
+  | KTrDblx => [trunc53 (trem n (Z.quot d 16))]
   | KIsDiv => [Z.b2z (if d =? 0 then n =? 0 else (n mod d =? 0))]
   end.
 
@@ -58,10 +61,7 @@ Definition pre (k : conv) (n d : Z) : Prop :=
   | KIsDiv => True
   | KExact => d <> 0 /\ exists q, n = d * q
   | KTrFit64 => d <> 0 /\ in_i64 (trem n d)
-  | KTrFit32 => d <> 0 /\ in_i32 (trem n d)
-  | KTrFit16 => d <> 0 /\ in_i16 (trem n d)
-  | KTrDbl => d <> 0 /\ in_i64 (trem n d) /\ round53 (trem n d) = trem n d
-  | KTrDblx => Z.quot d 16 <> 0 /\ in_i64 (trem n (Z.quot d 16)) /\ round53 (trem n (Z.quot d 16)) = trem n (Z.quot d 16)
+  | KTrDblx => Z.quot d 16 <> 0
   | _ => d <> 0
   end.
 
@@ -135,7 +135,7 @@ Definition forms : list form := [
   F1 "op%.I" KTr TZ TZ op_mod_I; F1 "op%.l" KTr TZ Ti64 op_mod_l; F1 "op%.i" KTr TZ Ti32 op_mod_i;
   F1 "op%.Ts" KTr TZ Ti16 op_mod_Ts; F1 "op%.Tc" KTr TZ Ti8 op_mod_Tc; F1 "op%.Tf" KTr TZ Tf24 op_mod_Tf;
   F1 "op%.ul" KTrFit64 TZ Tu64 op_mod_ul; F1 "op%.UL" KTrFit64 TZ Tu64 op_mod_ul;
-  F1 "op%.u" KTrFit32 TZ Tu32 op_mod_u; F1 "op%.us" KTrFit16 TZ Tu16 op_mod_us;
+  F1 "op%.u" KTr TZ Tu32 op_mod_u; F1 "op%.us" KTr TZ Tu16 op_mod_us;
   F1 "op%.Tuc" KAbsTr TZ Tu8 op_mod_Tuc;
   F1 "op%.d" KTrDbl TZ Tdbl op_mod_d; F1 "op%.dx" KTrDblx TZ Tdblx op_mod_dx;
   F1 "w%I.i" KTr Ti32 TZ w_mod_I; F1 "w%I.l" KTr Ti64 TZ w_mod_I; F1 "w%I.u" KTr Tu32 TZ w_mod_I; F1 "w%I.ul" KTr Tu64 TZ w_mod_I;
@@ -155,7 +155,7 @@ Definition conv_name (k : conv) : string :=
   match k with
   | KTq => "tq" | KTr => "tr" | KFq => "fq" | KFr => "fr" | KCq => "cq" | KCr => "cr"
   | KEq => "equo" | KEr => "emod" | KEqr => "divmod" | KExact => "exact" | KAbsTr => "abs_tr" | KAbsCr => "abs_cr"
-  | KTrFit64 => "tr|fits:i64" | KTrFit32 => "tr|fits:i32" | KTrFit16 => "tr|fits:i16" | KTrDbl => "tr|fits:dbl_i64" | KTrDblx => "tr_x16|fits:dbl_i64"
+  | KTrFit64 => "tr|fits:i64" | KTrDbl => "tr>dbl" | KTrDblx => "tr_x16>dbl"
   | KIsDiv => "isdiv"
   end.
 Definition form_row (f : form) : string * (string * (string * string)) :=
